@@ -60,6 +60,17 @@ MergeViol(items) ==
          THEN V("OrphanExtension", "schema")
          ELSE {} : i \in DOMAIN items}
 
+(* names are unique among ALL kinds of types (the per-kind check above is the extension resolver's; this one the checker's), and a   *)
+(* directive is defined once - the built-in directives count                                                                          *)
+BuiltinDirectiveNames == {"skip", "include", "deprecated", "specifiedBy", "nitrogql_ts_type"}
+NameViol(items) ==
+  UNION {LET d == items[i] IN
+         IF IsOrigT(d) /\ \E j \in 1..(i - 1) : IsOrigT(items[j]) /\ items[j].k # d.k /\ items[j].name = d.name
+         THEN V("DuplicateDefinition", d.name)
+         ELSE IF d.k = "directive" /\ (d.name \in BuiltinDirectiveNames \/ \E j \in 1..(i - 1) : items[j].k = "directive" /\ items[j].name = d.name)
+         THEN V("DuplicateDefinition", d.name)
+         ELSE {} : i \in DOMAIN items}
+
 (* --------------------------------------------------- rules on merged S *)
 DupNames(xs, rule) == UNION {IF \E j \in 1..(i - 1) : xs[j].name = xs[i].name THEN V(rule, xs[i].name) ELSE {} : i \in DOMAIN xs}
 DupRefs(xs, rule)  == UNION {IF \E j \in 1..(i - 1) : xs[j].n = xs[i].n THEN V(rule, xs[i].n) ELSE {} : i \in DOMAIN xs}
@@ -177,5 +188,5 @@ BuiltinExtViol(S, items) ==
          IN IF exts = <<>> THEN {} ELSE TDirs(S, Cat(exts, "dirs"), "SCALAR") : n \in BuiltinScalarNames}
 TSViolations(items) ==
   LET mv == MergeViol(items) IN
-  IF mv # {} THEN mv ELSE LET S == MergeItems(items) IN TSViolationsMerged(S) \cup BuiltinExtViol(S, items)
+  IF mv # {} THEN mv ELSE LET S == MergeItems(items) IN TSViolationsMerged(S) \cup BuiltinExtViol(S, items) \cup NameViol(items)
 =============================================================================
